@@ -11,6 +11,7 @@ pub mod pset;
 pub mod mutate;
 pub mod ext_g1;
 pub mod ext_g2;
+pub mod ext_g3;
 pub mod ext_g5;
 pub mod ext_g6;
 
